@@ -30,6 +30,10 @@ THEOREMS = [
     "BeyondVerif.C15.infosTest_never",
     "BeyondVerif.C15.getInfos_own",
     "BeyondVerif.C15.getInfos_frame",
+    "BeyondVerif.C15.copyItems_no_infos",
+    "BeyondVerif.C15.copy_drops_infos",
+    "BeyondVerif.C15.asOrbit_drops_infos",
+    "BeyondVerif.C15.asSV_drops_infos",
     "BeyondVerif.C15.copyForm_ok_new",
     "BeyondVerif.C15.transformObj_separate",
     "BeyondVerif.C15.covSetFrame_error_atomic",
@@ -129,7 +133,8 @@ NOT_COVERED = [
     "numpy views (sv[:], sv.view()) share the buffer with their parent by numpy's own semantics and are outside the model; setting the form of such a view rewrites the parent's values but not its form label (observed, not filed: a view is not a copy)",
     "after a pickle round trip the Frame objects are clones, so `p.frame = <same name>` runs a (numerically identity) transformation through cartesian instead of doing nothing: modelled and compared, not judged",
     "the Infos helper is a WEAK reference of the model (Ref.infos owner gen: compared by identity and owner in every dump, not followed by refsOf): the separation theorems do not speak about it; what the getter hands out has its own "
-    "theorem (getInfos_own). That copy() passes the receiver's helper along in _data is the open finding C15-copy-hands-over-infos-helper; the caches inside an Infos object (_kep, _sphe) are C01 / C08",
+    "theorem (getInfos_own), and since /repo a12f060 copy() does not hand it over: copy_drops_infos / asOrbit_drops_infos / asSV_drops_infos for every heap; for copy(form=), copy(frame=), Frame.transform and copy.deepcopy "
+    "kernel-checked on the witness heap (copy_hands_over_infos_entry) and compared by the correspondence; that no cell at ANY depth of a copy holds a helper bound to an old object needs 'helpers occur only under the key infos' as a further well-formedness clause (not stated); the caches inside an Infos object (_kep, _sphe) are C01 / C08",
     "a form change that fails for another reason than an unknown name (an exception inside Form.__call__): no input of the generators reaches one",
     "Cov frame conversions to/from the Hill frame beyond the error kind; numerical content of covariance rotations (C14); the stale _orb_frame of a Cov re-attached to a state in another frame (C14)",
     "Orbit.propagate / Infos caches (C08, C01)",
